@@ -227,6 +227,69 @@ def h_collect(n0: int, n1: int, i0: int, i1: int, i2: int, i3: int, i4: int, i5:
     return 1 if got == want else 0
 
 
+# ------------------------------------------------------------------ orphan performances (decision tree, concrete per path)
+class _StubVolumes:
+    """stands for SafeListConstruct(num_volumes, VolumeEntryAdapter(...)): returns the volume entries of the model"""
+
+    def __init__(self, vols):
+        self.vols = vols
+
+    def _parsereport(self, stream, context, path):
+        return list(self.vols)
+
+
+def h_orphans(nperf: int, present: int, a0: int, a1: int, b0: int, b1: int, nvol: int) -> int:
+    """
+    pre: 0 <= nperf <= 3 and 0 <= present <= 7 and 0 <= nvol <= 2
+    pre: -1 <= a0 <= 2 and -1 <= a1 <= 2 and -1 <= b0 <= 2 and -1 <= b1 <= 2
+    post: _ == 1
+    """
+    CNT[0] += 1
+    import io
+    import struct
+    from vf.util import untraced
+    present, nvol = conc(present, 0, 7), conc(nvol, 0, 2)
+    nperf = bin(present).count("1")                                       # the id area's count = number of performances on the disk
+    refs = []
+    if nvol >= 1:
+        refs.append([conc(x, -1, 2) for x in (a0, a1)])
+    if nvol >= 2:
+        refs.append([conc(x, -1, 2) for x in (b0, b1)])
+    with untraced():
+        import numpy as np
+        from smpl_extract.roland.s7xx.volume_entry import VolumeEntriesList, VolumeEntry
+        from smpl_extract.roland.s7xx.data_types import PERFORMANCE_DIRECTORY_AREA_OFFSET
+        perf_idx = [i for i in range(3) if (present >> i) & 1]            # performance directory slots that hold a performance
+        vol_ptrs = [sorted({x for x in r if x >= 0}) for r in refs]
+        if any(x not in perf_idx for r in vol_ptrs for x in r):
+            return 1                                                       # volumes reference existing performances only
+        # performance directory area: 32-byte entries, type byte 0x41 for a performance
+        area = bytearray(PERFORMANCE_DIRECTORY_AREA_OFFSET + 0x200 * 0x20)
+        for i in perf_idx:
+            off = PERFORMANCE_DIRECTORY_AREA_OFFSET + 0x20 * i
+            area[off:off + 16] = ("PERF %d" % i).ljust(16).encode("ascii")
+            area[off + 16] = 0x41
+        vols = [VolumeEntry(v, "VOL%d" % v, "VOL%d" % v, vol_ptrs[v], _f_realize_children=lambda ctx: []) for v in range(nvol)]
+        lst = VolumeEntriesList(nvol, nperf)
+        lst.subcon = _StubVolumes(vols)
+        ctx = Container(_parsing=True, _building=False, _sizing=False, _params=Container(), _dir_version=1)
+        out = lst._parse(io.BytesIO(bytes(area)), ctx, "")
+        referenced = {x for r in vol_ptrs for x in r}
+        orphans = [i for i in perf_idx if i not in referenced]
+        # every performance no volume references is exported under a pseudo-volume; volumes are kept as they are
+        if [v.directory_name for v in out[:nvol]] != ["VOL%d" % v for v in range(nvol)]:
+            return 0
+        if orphans:
+            if len(out) != nvol + 1:
+                return 0
+            if sorted(int(x) for x in out[-1].performance_ptrs) != orphans:
+                return 0
+        elif len(out) != nvol:
+            if not (len(out) == nvol + 1 and list(out[-1].performance_ptrs) == []):
+                return 0
+    return 1
+
+
 def h_rate(code: int) -> int:
     """
     pre: 0 <= code <= 15
@@ -260,7 +323,8 @@ def h_looppoint(raw: int) -> int:
     return 1 if (fine == raw % 256 and addr == raw // 256) else 0
 
 
-RUNS = ["smpl_extract.roland.s7xx.sample_file:SampleFile.to_generalized", "smpl_extract.roland.s7xx.sample_file:_get_forward_end_params",
+RUNS = ["smpl_extract.roland.s7xx.volume_entry:VolumeEntriesList._parse", "smpl_extract.roland.s7xx.volume_entry:VolumeEntriesList._parse_orphan_performances",
+        "smpl_extract.roland.s7xx.sample_file:SampleFile.to_generalized", "smpl_extract.roland.s7xx.sample_file:_get_forward_end_params",
         "smpl_extract.roland.s7xx.sample_file:_get_forward_release_params", "smpl_extract.roland.s7xx.sample_file:_get_oneshot_params",
         "smpl_extract.roland.s7xx.sample_file:_get_forward_oneshot_params", "smpl_extract.roland.s7xx.sample_file:_get_alternate_params",
         "smpl_extract.roland.s7xx.sample_file:_get_reverse_oneshot_params", "smpl_extract.roland.s7xx.sample_file:_get_reverse_loop_params",
@@ -309,6 +373,9 @@ def obligations(tier, seed):
         obs.append(ob(f"C02.addr/{KINDS[kind]}", "h_addr", [f"kind == {kind}"], "record index", "0..70000", []))
     for n0 in range(5):
         obs.append(ob(f"C02.collect/n0={n0}", "h_collect", [f"n0 == {n0}"], "sample indices referenced by two partials", f"{n0} + <=2 references over 3 indices", ["SampleFileAdapter recorder"]))
+    for nvol in (0, 1, 2):
+        obs.append(ob(f"C02.orphans/volumes={nvol}", "h_orphans", [f"nvol == {nvol}"], "which directory slots hold performances, which performances each volume references",
+                      "<= 3 performances, <= 2 volumes x <= 2 references (shared and orphaned)", ["stub volume list", "synthetic performance directory area"]))
     obs.append(ob("C02.rate", "h_rate", [], "4-bit frequency code", "0..15", []))
     obs.append(ob("C02.looppoint", "h_looppoint", [], "raw 32-bit loop point", "0..2^32-1", []))
     for o in c07.obligations(tier, seed):
